@@ -5,6 +5,7 @@ import re
 from .. import obs
 
 LEVEL = "exploration"
+SUITE_MONITOR = True      # also judge the repository's own tests/doctests through rv/monitors.py
 RULE = ("Every text up to length N (5 quick, 7 thorough) over {a, b, space, tab, newline} x "
         "formatting patterns (plain str argument, uniform, changing at every character, changing "
         "every second character - i.e. inside words and inside whitespace runs) x columns 1..7 is "
